@@ -318,3 +318,19 @@ CLAIMS["C31"] = (
     "6/C31", TRUSTED + "; Lambert W is compared with the tabulated coefficients (-k)^(k-1)/k! composed with the "
     "argument; gamma and Laurent/Puiseux cases (cot, csc at 0) are outside 'analytic at 0' and not generated",
     "TLA+ power-series semantics from differential equations + TLC trace validation")
+
+CLAIMS["C30"] = (
+    "model_checking",
+    "TLC builds polynomial equations of degree 1-4 from their roots (9 rational roots, 6 irreducible quadratics with "
+    "complex or irrational roots, repeated roots, three leading coefficients, expanded and factored, as expression "
+    "and as Eq), rational equations from numerator and denominator factor lists that share factors, 14 linear "
+    "trigonometric equations and 2x2 / 3x3 linear systems, over the default, complex and real domains; the harness "
+    "records the structure of the returned set (finite parts, intersections, unions, complements) with every member "
+    "to 2^-20; TLC evaluates three-valued membership of all roots, poles and listed members in that structure and "
+    "demands: member => solution, pole never, solution in the domain => member; the equation evaluated exactly at "
+    "every member whose value is defined; membership of 61 probes k*pi/12 in the trigonometric solution sets "
+    "coincides with f = 0; linsolve's vector satisfies every equation of a uniquely solvable system",
+    "6/C30", TRUSTED + "; eval_complex_double of the library provides the 2^-20 approximations of members in "
+    "Cardano/Ferrari radical form (their exact values are outside the value domain); image sets over (-oo, oo) are "
+    "read as indexed by the integers (the library's stand-in) and the literal reading is reported as a known finding",
+    "TLA+ solution-set semantics (three-valued membership) + exact/fixed-point root comparison + TLC trace validation")
